@@ -162,6 +162,13 @@ static fat_tok rt_write_clone_of_slice(fat_tok dst, fat_tok src) {
   }
   return dst;
 }
+static unit_t rt_drop_one(tok_t *p) { unit_t u = {0}; tok_drop(p); return u; }                 /* drop_in_place::<T>, MaybeUninit::assume_init_drop */
+static unit_t rt_ptr_write(tok_t *p, tok_t v) { unit_t u = {0}; *p = v; return u; }
+static unit_t rt_mem_swap(tok_t *a, tok_t *b) { unit_t u = {0}; tok_t t = *a; *a = *b; *b = t; return u; }
+static size_t rt_saturating_sub(size_t a, size_t b) { return a < b ? 0 : a - b; }
+static size_t rt_wrapping_add(size_t a, size_t b) { return a + b; }
+static size_t rt_wrapping_sub(size_t a, size_t b) { return a - b; }
+static size_t rt_max(size_t a, size_t b) { return a > b ? a : b; }
 static tok_t rt_read(tok_t *p) { return *p; }
 static tok_t *rt_write(tok_t *p, tok_t v) { *p = v; return p; }
 static tok_t rt_replace(tok_t *p, tok_t v) { tok_t old = *p; *p = v; return old; }
